@@ -183,6 +183,7 @@ void harness_any_f4(void) { any_src(wuffs_demo__parser__f4); }
 void harness_any_f5(void) { any_src(wuffs_demo__parser__f5); }
 void harness_any_f7(void) { any_src(wuffs_demo__parser__f7); }
 void harness_any_f6(void) { any_io(wuffs_demo__parser__f6); }
+void harness_any_f9(void) { any_io(wuffs_demo__parser__f9); }
 void harness_any_transform(void) { any_io(call_transform); }
 
 // ---- std hashers: any slice of any bytes ----
